@@ -15,4 +15,15 @@ CHECKS = {
     ),
 }
 
+CHECKS["C03"] = dict(
+    pkg="c03", race=True, level="exploration", timeout_quick=600, timeout_thorough=2400,
+    technique="bounded-exhaustive enumeration of call sequences against a 3-state model + rapid-generated concurrent histories checked for linearizability (porcupine) under the race detector",
+    level_text="All sequences over {Ack,Nack,probe Acked,probe Nacked} up to length 8 (9 thorough) on four kinds of message are enumerated and compared step by step with the first-wins model (complete for that bound). Concurrent histories of 2..16 goroutines are generated, executed under -race with yield padding and varied GOMAXPROCS, and checked for linearizability against the same model; winner agreement and channel state are checked after the join. Interleavings are sampled, not enumerated, so this is exploration.",
+    level_note="Trusted: porcupine's checker, the race detector, one atomic counter as real-time order. Zero-value messages are not probed concurrently with Ack/Nack (documented data race by design, outside the property).",
+    steps=[
+        dict(name="exhaustive", run="^TestExhaustiveSequences$", quick=1, thorough=1),
+        dict(name="histories", run="^TestConcurrentHistories$", quick=3000, thorough=200000, shards_thorough=15),
+    ],
+)
+
 NOT_APPLICABLE = {}
